@@ -1035,6 +1035,7 @@ where
                 entry_addr: entry as *const ValueEntry<K, V> as usize,
                 info_addr: 0,
                 weight: entry.policy_weight(),
+                accounted: entry.policy_weight(),
                 // Timestamps live in the deque nodes; they are reported there so
                 // that no node pointer is dereferenced here.
                 last_accessed: None,
